@@ -10,7 +10,9 @@ partial_fit batching, for 2..4 levels, every elementary class as level model, an
   * predict returns n_layers+1 vectors linked by the layer maps, nested, labels seen in training,
   * fit == partial_fit batching (labels_deep_, maps, weights).
 The same oracle runs with class targets that are large identifiers (identifier_labels) and with targets handed over as an
-(n, 1) column vector through >= 2 partial_fit batches of one common size (column_targets: DeepARTMAP and SimpleARTMAP).
+(n, 1) column vector through >= 2 partial_fit batches of one common size (column_targets: DeepARTMAP and SimpleARTMAP), after the public `modules` list was edited (modules_list_edited), and after
+a plotting call in the middle of the history -- SMART.visualize / plot_cluster_bounds on 2..4 levels, a level module or a
+layer drawn on its own -- followed by a partial_fit on a second batch (plotted_hierarchies).
 Tie: Lean `deep` histories end-to-end over Q (Fuzzy / ART1 / ART2-A levels, grid data): columns,
 every layer's map, category counts, B-side labels and per-level predictions must agree exactly."""
 from __future__ import annotations
@@ -932,6 +934,187 @@ def modules_list_edited(ctx, M, nmax):
         cov.hit(f"modules-list-edited:re-fit:levels={len(est.layers) + 1}")
 
 
+# ------------------------------------------------------------------ a hierarchy is drawn in the middle of its history
+
+# what is drawn: the whole hierarchy (SMART.visualize / SMART.plot_cluster_bounds: every level's categories in the colour of
+# their top-level ancestor), one level's module, or one layer (SimpleARTMAP / ARTMAP around two adjacent levels)
+HOST_PLOTS = ["visualize:own-labels", "plot_cluster_bounds:long-colors", "visualize:long-colors", "visualize-twice",
+              "plot_cluster_bounds:color-dict", "visualize:short-colors"]
+PART_PLOTS = ["module.visualize", "layer.visualize", "module.plot_cluster_bounds", "layer.plot_cluster_bounds"]
+
+
+def _pyplot():
+    try:
+        import matplotlib
+        matplotlib.use("Agg")
+        import matplotlib.pyplot as plt
+        return plt
+    except Exception:   # noqa
+        return None
+
+
+def draw(plt, r, est, case, plot, c):
+    """one plotting call on a trained hierarchy (rows 0:c were presented); public API only"""
+    kind, k = case["kind"], case["k"]
+    palette = [(0.1 * (t % 10), 0.5, 0.5, 1.0) for t in range(c + 12)]       # a colour for every possible category
+    fig, ax = plt.subplots()
+    what, _, how = plot.partition(":")
+    if what in ("visualize", "visualize-twice", "plot_cluster_bounds"):        # the host itself (SMART)
+        X = case["Xs"][0][:c]
+        y = est.labels_ if how == "own-labels" or r.random() < 0.5 else np.array(est.labels_)
+        if what == "plot_cluster_bounds":
+            est.plot_cluster_bounds(ax, {t: col for t, col in enumerate(palette)} if how == "color-dict" else palette)
+            return
+        colors = {"long-colors": palette, "short-colors": palette[:max(1, min(2, int(est.modules[0].n_clusters) - 1))]}.get(how)
+        est.visualize(X, y, ax=ax, colors=colors)
+        if what == "visualize-twice":
+            est.visualize(X, y, ax=ax, colors=colors)
+        return
+    off = 0 if kind == "sup" else 1
+    if what.startswith("module"):
+        lv = r.randrange(k)
+        tgt, X = est.modules[lv], case["Xs"][lv][:c]
+    else:
+        l = r.randrange(len(est.layers))
+        tgt, X = est.layers[l], case["Xs"][l + off][:c]
+    if what.endswith("plot_cluster_bounds"):
+        tgt.plot_cluster_bounds(ax, palette)
+    else:
+        tgt.visualize(X, tgt.labels_, ax=ax, colors=r.choice([None, palette]))
+
+
+def plotted_hierarchies(ctx, M, nmax):
+    """visualize / plot_cluster_bounds are calls of a history like any other (they are how a trained hierarchy is looked
+    at before training goes on): a SMART with 2..4 levels is drawn as a whole, a DeepARTMAP / SMART level module or layer
+    is drawn on its own.  The whole C12 oracle runs before the drawing, after it (labels_deep_, every layer map, map_deep
+    and predict still describe the trained tree) and after a partial_fit on a second batch that follows the drawing; the
+    drawn hierarchy is also compared with a twin that had the same training calls and was never drawn.  A drawing that
+    raises is tolerated (ART1 / ART2-A have no cluster bounds, BayesianART cannot be drawn with this numpy, ARTMAP
+    layers have no plot_cluster_bounds, a short colour list runs out): the oracle is run all the same."""
+    cov = ctx.cov
+    plt = _pyplot()
+    if plt is None:
+        cov.hit("plotted-hierarchy:matplotlib-missing")
+        return
+    try:
+        for j in range(M):
+            r = gen.rng_for(ctx.seed, "C12-plot", j)
+            q, slot = divmod(j, 4)
+            i = 3 * q + [2, 2, 0, 1][slot]                        # SMART twice, supervised, unsupervised; classes cycle with q
+            deep3 = slot == 0 or (slot == 1 and q % 2 == 0)      # SMART with three or more levels
+            case = None
+            for _ in range(60):
+                cand = gen_case(r, i, max(nmax, 16), floats=q % 5 == 4)
+                if cand["n"] < 6 or min(cand["ds"]) < 2:
+                    continue
+                if cand["kind"] == "smart" and deep3 and cand["k"] < 3:
+                    continue
+                case = cand
+                break
+            if case is None:
+                cov.hit("plotted-hierarchy:no-instance")
+                continue
+            case["mode"] = MODES[j % 5]
+            kind, cls, n, k = case["kind"], case["cls"], case["n"], case["k"]
+            name = {"sup": "DeepARTMAP-sup", "unsup": "DeepARTMAP-unsup", "smart": "SMART"}[kind]
+            if kind == "smart" and r.random() < 0.8:
+                plot = HOST_PLOTS[(q + slot) % len(HOST_PLOTS)] if r.random() < 0.8 else r.choice(HOST_PLOTS)
+            else:
+                plot = PART_PLOTS[(q + slot) % len(PART_PLOTS)]
+            c = r.randint(max(2, n // 2), n - 1)                  # rows 0:c before the drawing, c:n after it
+            style = r.choice(["fit", "fit", "pfit", "fit+pfit"])
+            calls = [(op, a, b) for op, a, b in plan(r, c, style)]
+            rep = {"kind": kind, "spec": case["spec"], "Xs": [X.tolist() for X in case["Xs"]],
+                   "y": None if case["y"] is None else case["y"].tolist(), "y_dtype": case.get("ydtype"),
+                   "mode": case["mode"], "eps": case["eps"], "calls": calls, "then_plot": plot, "then_partial_fit_rows": [c, n]}
+            key = ("plot", kind, case["spec"], rep["Xs"], rep["y"], case["mode"], case["eps"], calls, plot, c)
+            try:
+                est, twin = build(case), build(case)
+                for e in (est, twin):
+                    for op, a, b in calls:
+                        do_fit(e, case, a, b, op)
+            except Exception as e:
+                ctx.issue("violation", f"{name}({cls}).fit:{exc_enum(e)}", f"training raised {e!r} on valid data (calls {calls})", rep)
+                cov.case(key, False)
+                continue
+            if not oracle(ctx, est, case, c, f"{style}, before it is drawn", rep):
+                cov.case(key, False)
+                continue
+            L0 = np.asarray(est.labels_deep_).copy()
+            maps0 = [{int(p): as_int(v) for p, v in Ly.map.items()} for Ly in est.layers]
+            counts = [len(set(L0[:, l].tolist())) for l in range(L0.shape[1])]
+            Xl = case["Xs"][-1]
+            Q = np.vstack([Xl[[r.randrange(n) for _ in range(min(n, 5))]],
+                           specs.elem_data(r, case["classes"][-1], 3, case["ds"][-1])])
+            try:
+                P0 = [np.asarray(p).copy() for p in do_predict(est, case, Q)]
+            except Exception:
+                P0 = None                                             # reported by oracle_predict below
+            # ---- the drawing
+            raised = None
+            try:
+                with quiet():
+                    draw(plt, r, est, case, plot, c)
+            except Exception as e:
+                raised = exc_enum(e)
+            finally:
+                plt.close("all")
+            rep["plot_raised"] = raised
+            tag = f"{style}, then {plot}" + (f" (the drawing raised {raised})" if raised else "")
+            # ---- the trained hierarchy is still what labels_deep_ / the layer maps / map_deep / predict describe
+            if oracle(ctx, est, case, c, tag, rep):
+                L1 = np.asarray(est.labels_deep_)
+                if L1.shape != L0.shape or not np.array_equal(L1, L0):
+                    ctx.issue("violation", f"{name}:labels_deep_-changed-by-a-plotting-call",
+                              f"[{tag}] before {L0.T.tolist()} after {L1.T.tolist()}", rep)
+            try:
+                maps1 = [{int(p): as_int(v) for p, v in Ly.map.items()} for Ly in est.layers]
+            except Exception as e:
+                maps1 = repr(e)
+            if maps1 != maps0:
+                ctx.issue("violation", f"{name}:maps-changed-by-a-plotting-call", f"[{tag}] before {maps0} after {maps1}", rep)
+            P1 = oracle_predict(ctx, est, case, Q, L0, tag, dict(rep, Q=Q.tolist()))
+            if P0 is not None and P1 is not None and any(not np.array_equal(a, b) for a, b in zip(P0, P1)):
+                ctx.issue("violation", f"{name}:predict-changed-by-a-plotting-call",
+                          f"[{tag}] before {[p.tolist() for p in P0]} after {[p.tolist() for p in P1]}", dict(rep, Q=Q.tolist()))
+            # ---- training goes on: a second batch, the clauses again, and the twin that was never drawn
+            tag2 = tag + f", then partial_fit rows {c}:{n}"
+            try:
+                do_fit(est, case, c, n, "pfit")
+                do_fit(twin, case, c, n, "pfit")
+            except Exception as e:
+                ctx.issue("violation", f"{name}({cls}).partial_fit-after-plotting:{exc_enum(e)}",
+                          f"[{tag2}] raised {e!r} on valid data", rep)
+                cov.case(key, False)
+                continue
+            if oracle(ctx, est, case, n, tag2, rep):
+                try:
+                    same = same_snapshot(snapshot(est), snapshot(twin))
+                except Exception:
+                    same = False
+                if not same:
+                    ctx.issue("violation", f"{name}:history-with-plotting-call!=history-without",
+                              f"[{tag2}] labels_deep_ {np.asarray(est.labels_deep_).T.tolist()}; the same training calls "
+                              f"without the drawing give {np.asarray(twin.labels_deep_).T.tolist()}", rep)
+                oracle_predict(ctx, est, case, Q, np.asarray(est.labels_deep_), tag2, dict(rep, Q=Q.tolist()))
+            grow = len(counts) >= 3 and all(counts[l] < counts[l + 1] for l in range(len(counts) - 1))
+            cov.case(key, nontrivial=raised is None and counts[-1] >= 2 and counts[-1] > counts[0])
+            cov.hit("plotted-hierarchy")
+            cov.hit(f"plotted-hierarchy:kind={kind}")
+            cov.hit(f"plotted-hierarchy:plot={plot}")
+            cov.hit(f"plotted-hierarchy:class={cls}")
+            cov.hit(f"plotted-hierarchy:levels={L0.shape[1]}")
+            cov.hit(f"plotted-hierarchy:trained-by={style}")
+            cov.hit("plotted-hierarchy:then-partial_fit")
+            cov.hit("plotted-hierarchy:drawn" if raised is None else f"plotted-hierarchy:drawing-raised:{cls}:{plot}:{raised}")
+            if raised is None and kind == "smart" and plot in HOST_PLOTS:
+                cov.hit(f"plotted-hierarchy:SMART-drawn-whole:levels={L0.shape[1]}")
+                if grow:
+                    cov.hit("plotted-hierarchy:SMART-drawn-whole:>=3-levels-categories-grow-at-every-level")
+    finally:
+        plt.close("all")
+
+
 # ------------------------------------------------------------------ main loop
 
 
@@ -1044,6 +1227,7 @@ def run(ctx):
     identifier_labels(ctx, ctx.scale(120, 1600), nmax)
     column_targets(ctx, ctx.scale(144, 1800), nmax)
     modules_list_edited(ctx, ctx.scale(168, 2100), nmax)
+    plotted_hierarchies(ctx, ctx.scale(64, 640), nmax)
     correspondence(ctx, ctx.scale(480, 6000), ctx.scale(12, 30))
     ctx.trusted.append("C12: rounding inside the level kernels is outside the theorems (the nesting argument is order-only "
                        "and kernel-independent; the tie runs exact kernels on grid data)")
